@@ -27,7 +27,7 @@ TRUSTED = ['modelled, not verified: urllib.parse.quote / unquote (transcribed fr
            'str.encode / bytes.decode for utf-8 strict / replace (transcribed from Objects/stringlib/codecs.h and '
            'unicode_decode_utf8), int(str) on ASCII text, str(int), dict(headers) (last duplicate wins), '
            'h2/hpack carrying ASCII header strings unchanged and refusing non-ASCII bytes with UnicodeDecodeError '
-           '(header_encoding=ascii); protobuf, google.rpc.Status and Any (opaque bytes)']
+           '(header_encoding=ascii), which H2Protocol.data_received turns into a connection-level protocol error; protobuf, google.rpc.Status and Any (opaque bytes)']
 ASSUMPTIONS = ['status messages are Python str (code points 0..0x10FFFF); a lone surrogate makes the server raise '
                'UnicodeEncodeError (modelled as an explicit error result, outside the property quantifier)',
                'the encoded trailers fit the receiving h2 MAX_HEADER_LIST_SIZE (65536 by default); beyond it the '
@@ -454,7 +454,12 @@ def impl_receive(case):
     _quiet()
     raw = [(unj(k), unj(v)) for k, v in case['hs']]
     with vloop.session() as loop:
-        ce = wire.ClientEnd(loop, status_details_codec=raw_details_codec() if case.get('codec', True) else None)
+        if case.get('codec', True) == 'proto':
+            from grpclib.encoding.proto import ProtoStatusDetailsCodec
+            sdc = ProtoStatusDetailsCodec()
+        else:
+            sdc = raw_details_codec() if case.get('codec', True) else None
+        ce = wire.ClientEnd(loop, status_details_codec=sdc)
         m = UnaryUnaryMethod(ce.channel, '/v.S/M', bytes, bytes)
         got = {}
 
@@ -501,7 +506,9 @@ def model_receive_expect(line):
     """what the model's client_receive answer means for the call above"""
     w = line.split()
     if w[0] == 'connerr':
-        return ('connerr', 'UnicodeDecodeError')
+        # h2 raises UnicodeDecodeError; H2Protocol.data_received treats it as a protocol error: the connection is
+        # closed and the call ends with StreamTerminatedError
+        return ('exc', 'StreamTerminatedError')
     if w[0] == 'status':
         if int(w[1]) == 0:
             return ('ok', b'r')
@@ -541,6 +548,8 @@ def e2e(case):
         details = tuple(details)
     how = case.get('how', 'raise')
     card = 'US' if how.endswith('stream') else 'UU'
+    # user trailing metadata next to the status (only send_trailing_metadata can pass it)
+    md = [(k, unj(v)) for k, v in case['md']] if case.get('md') and how.startswith('send') else None
     log = []
     with vloop.session() as loop:
         async def handler(stream):
@@ -552,7 +561,7 @@ def e2e(case):
                 raise GRPCError(st, msg, details)
             if how == 'send-after-message' or how == 'send-stream':
                 await stream.send_message(b'r')
-            await stream.send_trailing_metadata(status=st, status_message=msg, status_details=details)
+            await stream.send_trailing_metadata(status=st, status_message=msg, status_details=details, metadata=md)
         codec = recording_proto_codec(log)
         server = Server([Service('v.S', {'M': (handler, card)})], codec=RawCodec(), status_details_codec=codec)
         channel = Channel(codec=RawCodec(), status_details_codec=codec)
@@ -568,6 +577,7 @@ def e2e(case):
 
         async def call():
             async with m.open() as s:
+                got['stream'] = s
                 await s.send_message(b'q', end=True)
                 if card == 'US':
                     async for r in s:
@@ -575,9 +585,10 @@ def e2e(case):
                 else:
                     got['replies'].append(await s.recv_message())
                 await s.recv_trailing_metadata()
-                got['tm'] = list(s.trailing_metadata.items())
         t = loop.create_task(call())
         quiet = loop.run_quiet(20)
+        tm = getattr(got.get('stream'), 'trailing_metadata', None)
+        got['tm'] = None if tm is None else list(tm.items())
         o = vloop.outcome(t)
         conn_alive = not link.ta.lost and not link.tb.lost
     obs = {'outcome': o[0], 'quiet': quiet, 'conn_alive': conn_alive, 'replies': len(got['replies'])}
@@ -623,8 +634,9 @@ def oracle_e2e(case, obs, details):
                 else (type(d).DESCRIPTOR.full_name, d.SerializeToString(deterministic=True)) for d in details]
         if obs['details'] is None or [tuple(x) for x in obs['details']] != want:
             return 'details changed', 'details-changed'
-    if obs.get('tm'):
-        return 'status headers leaked into trailing metadata: %r' % (obs['tm'],), 'leak'
+    want_tm = [(k, unj(v)) for k, v in case['md']] if case.get('md') and case.get('how', 'raise').startswith('send') else []
+    if (obs.get('tm') or []) != want_tm:
+        return 'trailing metadata next to the status differs: %r' % (obs['tm'],), 'trailing-metadata'
     return None
 
 
@@ -861,19 +873,26 @@ def check_receive(ctx, res, cases):
             m = model_receive_expect(model[i])
             if m == ('ok', b'r') and c.get('layout') == 'only':
                 m = ('ok', None)
-            if m != impl:
+            if c.get('codec') == 'proto' and m[0] == 'status' and impl[0] == 'status':
+                # the protobuf codec is opaque in the model: compare status and message only
+                m, impl_cmp = m[:3], impl[:3]
+            else:
+                impl_cmp = impl
+            if m != impl_cmp:
                 res.disagreements.append({'case': dict(c, op='rcv'), 'model': m, 'impl': impl})
         # oracle: whatever grpc-message / details bytes arrive, the call ends with the status that was sent
         d = dict((bytes(unj(k)), bytes(unj(v))) for k, v in c['hs'])
         sent = d.get(b'grpc-status', b'')
         if sent.isdigit() and len(sent) < 3 and 0 < int(sent) <= 16:
+            non_ascii = any(x > 127 for k, v in c['hs'] for x in bytes(unj(k)) + bytes(unj(v)))
             if impl[0] == 'connerr':
-                kind = 'non-ascii-header-escapes' if any(x > 127 for k, v in d.items() for x in k + v) else 'escapes'
-                res.oracle_failures.append({'case': dict(c, op='rcv'), 'signature': {'op': 'rcv', 'kind': kind},
+                res.oracle_failures.append({'case': dict(c, op='rcv'), 'signature': {'op': 'rcv', 'kind': 'escapes'},
                                             'what': '%s escaped from data_received while receiving the trailers' % impl[1],
                                             'observed': impl})
             elif impl[0] != 'status' or impl[1] != int(sent):
-                res.oracle_failures.append({'case': dict(c, op='rcv'), 'signature': {'op': 'rcv', 'kind': 'status-lost'},
+                kind = 'non-ascii-header-status-lost' if non_ascii and impl == ('exc', 'StreamTerminatedError') \
+                    else 'status-lost'
+                res.oracle_failures.append({'case': dict(c, op='rcv'), 'signature': {'op': 'rcv', 'kind': kind},
                                             'what': 'trailers carried grpc-status %s but the call ended with %r' % (
                                                 sent.decode(), impl), 'observed': impl})
 
@@ -938,7 +957,10 @@ def gen_e2e_case(rng, st=None, how=None):
         how = 'send-after-message'           # a unary OK answer needs its message (ProtocolError otherwise: C03/C06)
     r = rng.random()
     msg = None if r < 0.1 else [] if r < 0.15 else _scalars(gen_msg(rng))
-    return {'op': 'e2e', 'st': st, 'msg': msg, 'details': gen_detail_specs(rng), 'how': how,
+    md = None
+    if how.startswith('send') and rng.random() < 0.4:
+        md = [['x-k', 'v %41'], ['blob-bin', gen_details_bytes(rng)], ['x-k', 'second']][:rng.randint(1, 3)]
+    return {'op': 'e2e', 'st': st, 'msg': msg, 'details': gen_detail_specs(rng), 'how': how, 'md': md,
             'details_as': rng.choice(['list', 'tuple']), 'cut': rng.choice([None, rng.randint(1, 10 ** 6)])}
 
 
@@ -978,7 +1000,7 @@ def run(ctx):
             rcvs.append(c)
         elif op == 'e2e':
             e2es.append(c)
-    n = ctx.n(1500, 50000)
+    n = ctx.n(10000, 150000)
     # (a)
     encs += one_char_strings(rng, ctx.n(150, 5000))
     encs += [cpl(s) for s in SNIPPETS]
@@ -1003,7 +1025,7 @@ def run(ctx):
         for how in ('raise', 'send', 'send-after-message'):
             for m in fixed_msgs:
                 trs.append({'st': s.value, 'msg': m, 'det': rng.choice([None, b'', b'\x0a\xff']), 'how': how})
-    for _ in range(ctx.n(300, 6000)):
+    for _ in range(ctx.n(2000, 30000)):
         r = rng.random()
         trs.append({'st': rng.choice(status_members()).value,
                     'msg': None if r < 0.1 else gen_msg(rng) if r < 0.95 else gen_msg_with_surrogate(rng),
@@ -1015,16 +1037,18 @@ def run(ctx):
         for layout in ('trailers', 'only'):
             rcvs.append({'hs': [(b'grpc-status', b'5'), (b'grpc-message', v)], 'layout': layout})
     rcvs.append({'hs': [(b'grpc-status', b'0'), (b'grpc-message', b'ignored')], 'layout': 'trailers'})
-    for _ in range(ctx.n(300, 6000)):
+    for _ in range(ctx.n(2000, 30000)):
         rcvs.append(gen_receive_case(rng))
     check_receive(ctx, res, rcvs)
     # (e)
     for s in status_members():
         for how in ('raise', 'send'):
             e2es.append(gen_e2e_case(rng, s.value, how))
-    for _ in range(ctx.n(250, 5000)):
+    for _ in range(ctx.n(1500, 20000)):
         e2es.append(gen_e2e_case(rng))
     e2es += [expand(c) for c in OVERSIZE]
+    # witness of C14_status_roundtrip_all_refuted (OK, 'x', None): the model says the client keeps nothing
+    e2es.append({'op': 'e2e', 'st': 0, 'msg': [120], 'details': None, 'how': 'send-after-message'})
     check_e2e(ctx, res, e2es)
     return res
 
